@@ -5,17 +5,19 @@ EXTENDS RuleAst, TLC, Json, IOUtils
 VARIABLE l
 Trace == ndJsonDeserialize(IOEnv.TRACE_FILE)
 
-GeneFailed(ev, g) ==
-    LET r == ev.res[g]
-        met == Eval(ev.scene, ev.tree, g, FALSE)
+GeneFailedOf(ev, r, g, site) ==
+    LET met == Eval(ev.scene, ev.tree, g, FALSE)
         why == Reasons(ev.scene, ev.tree, g)
         seen == {r.matches[i] : i \in DOMAIN r.matches}
-    IN  IF r.exc # "" THEN {"detect/no_exception:" \o r.exc}
-        ELSE (IF r.met # met THEN {"detect/met_is_documented_formula"} ELSE {})
-             \cup (IF (r.met /\ seen # {}) # (met /\ why # {}) THEN {"detect/anchoring_iff_true_and_own_reason"} ELSE {})
-             \cup (IF r.met /\ met /\ seen # {} /\ why # {} /\ seen # why THEN {"detect/reasons_are_own_profiles"} ELSE {})
+    IN  IF r.exc # "" THEN {site \o "/no_exception:" \o r.exc}
+        ELSE (IF r.met # met THEN {site \o "/met_is_documented_formula"} ELSE {})
+             \cup (IF (r.met /\ seen # {}) # (met /\ why # {}) THEN {site \o "/anchoring_iff_true_and_own_reason"} ELSE {})
+             \cup (IF r.met /\ met /\ seen # {} /\ why # {} /\ seen # why THEN {site \o "/reasons_are_own_profiles"} ELSE {})
 
-Failed(ev) == UNION {GeneFailed(ev, g) : g \in DOMAIN ev.res}
+(* res: the rule asked directly with every gene of the scene on offer; pipe: the rule as apply_cluster_rules asks it on a
+   real record, with the neighbours that function has gathered for the rule's cutoff - the answers have to be the same *)
+Failed(ev) == UNION {GeneFailedOf(ev, ev.res[g], g, "detect") : g \in DOMAIN ev.res}
+              \cup UNION {GeneFailedOf(ev, ev.pipe[g], g, "apply_cluster_rules") : g \in DOMAIN ev.pipe}
 
 Init == l = 1
 Step == /\ l <= Len(Trace)
